@@ -144,7 +144,7 @@ checks["C07"] = {"kani": [
     tok("c12_mint_from", "mint_from", also=["C12.mint_rejects_negative", "C12.only_current_minters_mint"]), tok("c12_owner_mint", "mint", also=["C12.owner_mint_adds_exact_amount", "C06.owner_mint_needs_owner"]),
     gas("c14_pay_gas", "pay_gas"), gas("c14_add_gas", "add_gas"),
     ops("c17_execute", "execute"),
-    k(GW, C + "c13_call_contract", "AxelarGateway::call_contract", also=["C13.sender_authorised", "C13.auth_before"]), k(GW, C + "c02_validate_message", "AxelarGateway::validate_message", also=["C02.consumer_authorised", "C02.auth_before_write"]),
+    k(GW, C + "c13_call_contract", "AxelarGateway::call_contract", also=["C13.sender_authorised"]), k(GW, C + "c02_validate_message", "AxelarGateway::validate_message", also=["C02.consumer_authorised"]),
     k(EX, T + "c07_example_send", "Example::send"),
 ]}
 
@@ -201,6 +201,10 @@ checks["C10"] = {"scans": ["c10_strict_flag"], "codec_differential": True, "kani
     k(ITS, AB + "c10_optional_bytes_empty_bounded", "abi::into_vec / abi::from_vec", bounded="present field of length 0"),
     k(ITS, AB + "c10_optional_bytes_len2_bounded", "abi::into_vec / abi::from_vec", bounded="present field of length 2, symbolic content"),
 ]}
+
+checks["C02"]["lemmas"] = ["c02_history_monotone"]
+checks["C05"]["lemmas"] = ["c05_history_custody"]
+checks["C14"]["lemmas"] = ["c14_history_balance"]
 
 if __name__ == "__main__":
     here = os.path.dirname(os.path.abspath(__file__))
